@@ -460,10 +460,17 @@ func (p *Posix) isBucketEmpty(bucket string) error {
 			return fmt.Errorf("readdir bucket: %w", err)
 		}
 		if err == nil {
-			if len(ents) == 1 && ents[0].Name() != metaTmpDir {
-				return s3err.GetAPIError(s3err.ErrVersionedBucketNotEmpty)
-			} else if len(ents) > 1 {
-				return s3err.GetAPIError(s3err.ErrVersionedBucketNotEmpty)
+			for _, ent := range ents {
+				if ent.Name() == metaTmpDir {
+					continue
+				}
+				nothing, err := p.holdsNothing("", filepath.Join(p.versioningDir, bucket, ent.Name()), ent)
+				if err != nil {
+					return err
+				}
+				if !nothing {
+					return s3err.GetAPIError(s3err.ErrVersionedBucketNotEmpty)
+				}
 			}
 		}
 	}
@@ -475,13 +482,57 @@ func (p *Posix) isBucketEmpty(bucket string) error {
 	if errors.Is(err, fs.ErrNotExist) {
 		return s3err.GetAPIError(s3err.ErrNoSuchBucket)
 	}
-	if len(ents) == 1 && ents[0].Name() != metaTmpDir {
-		return s3err.GetAPIError(s3err.ErrBucketNotEmpty)
-	} else if len(ents) > 1 {
-		return s3err.GetAPIError(s3err.ErrBucketNotEmpty)
+	for _, ent := range ents {
+		if ent.Name() == metaTmpDir {
+			continue
+		}
+		nothing, err := p.holdsNothing(bucket, filepath.Join(bucket, ent.Name()), ent)
+		if err != nil {
+			return err
+		}
+		if !nothing {
+			return s3err.GetAPIError(s3err.ErrBucketNotEmpty)
+		}
 	}
 
 	return nil
+}
+
+// holdsNothing reports whether the directory entry at path holds nothing a
+// listing shows: it is a directory that is not a directory object and below
+// which there is no file and no directory object. Such directories are what
+// an interrupted request leaves behind (parents made for an object that was
+// never published, parents not yet pruned after a delete); they do not keep
+// a bucket from being deleted. bucket is "" for paths outside a bucket
+// (versioning directory), where there are no directory objects.
+func (p *Posix) holdsNothing(bucket, path string, ent fs.DirEntry) (bool, error) {
+	if !ent.IsDir() {
+		return false, nil
+	}
+	if bucket != "" {
+		rel, err := filepath.Rel(bucket, path)
+		if err == nil {
+			_, err = p.meta.RetrieveAttribute(nil, bucket, rel, etagkey)
+			if err == nil {
+				// a directory object
+				return false, nil
+			}
+		}
+	}
+	ents, err := os.ReadDir(path)
+	if errors.Is(err, fs.ErrNotExist) {
+		return true, nil
+	}
+	if err != nil {
+		return false, fmt.Errorf("readdir: %w", err)
+	}
+	for _, e := range ents {
+		nothing, err := p.holdsNothing(bucket, filepath.Join(path, e.Name()), e)
+		if err != nil || !nothing {
+			return false, err
+		}
+	}
+	return true, nil
 }
 
 func (p *Posix) DeleteBucket(_ context.Context, bucket string) error {
